@@ -97,6 +97,9 @@ func (h264dp *h264Depacketizer) depacketizeStapa(packet *Packet) (err error) {
 	off := 1 // 跳过 STAP-A NAL HDR
 	// 循环读取被封装的NAL
 	for {
+		if off+2 > len(payload) { // 剩余数据不足以容纳长度字段
+			break
+		}
 		// nal长度
 		nalSize := ((uint16(payload[off])) << 8) | uint16(payload[off+1])
 		if nalSize < 1 {
@@ -104,6 +107,9 @@ func (h264dp *h264Depacketizer) depacketizeStapa(packet *Packet) (err error) {
 		}
 
 		off += 2
+		if off+int(nalSize) > len(payload) { // 聚合单元被截断，整体丢弃
+			return
+		}
 		frame := &codec.Frame{
 			MediaType: codec.MediaTypeVideo,
 			Payload:   make([]byte, nalSize),
